@@ -75,7 +75,7 @@ def parse_state(lab):
 # ------------------------------------------------------------------------------------------ universe of real objects
 GRID_DEFS = {
     'g1': dict(start=S0, T=6, freq='h', tz=None),
-    'gs': dict(start=S0 + 3 * H, T=6, freq='h', tz=None),
+    'gs': dict(start=S0 + 3 * H, T=6, freq='h', tz=None, mtu='min'),      # another horizon AND another main time unit
     'gz': dict(start=S0, T=6, freq='h', tz='CET'),
     'gf': dict(start=S0, T=3, freq='2h', tz=None),
 }
@@ -89,7 +89,7 @@ class Universe:
         self.prices = {}
         for g, d in GRID_DEFS.items():
             step = H if d['freq'] == 'h' else 2 * H
-            self.grids[g] = A.Timegrid(d['start'], d['start'] + d['T'] * step, freq=d['freq'], timezone=d['tz'])
+            self.grids[g] = A.Timegrid(d['start'], d['start'] + d['T'] * step, freq=d['freq'], timezone=d['tz'], main_time_unit=d.get('mtu', 'h'))
             self.prices[g] = {'p1': {'p': np.array([1., 5., 2., 6., 3., 4.][:d['T']]), 'q': np.array([3.] * d['T'])},
                               'p2': {'p': np.array([4., 1., 3., 2., 5., 1.][:d['T']]), 'q': np.array([2.] * d['T'])}}
         n1 = A.Node('n1')
@@ -121,7 +121,10 @@ class Universe:
                                                     'end': [pd.Timestamp(S0 + 3 * H), pd.Timestamp(S0 + 8 * H), pd.Timestamp(S0 + 11 * H)],
                                                     'capa': [1., -1., 2.], 'price': [2., 6., 1.]}),
                       A.ExtendedTransport('a4', [n1, n2], min_cap=0., max_cap=2., efficiency=0.5, costs_const=0.1, max_take=take_arr),
-                      A.SimpleContract(name='a5', nodes=n2, price='q', min_cap=-3, max_cap=0, extra_costs=0.1)]
+                      A.SimpleContract(name='a5', nodes=n2, price='q', min_cap=-3, max_cap=0, extra_costs=0.1),
+                      # durations and a start profile in main time units, profile frequency left at its default (the grid's main time unit)
+                      A.Plant(name='pl', nodes=[n2], min_cap=1., max_cap=2., extra_costs=0.5, start_costs=1., min_runtime=2, time_already_off=1,
+                              start_ramp_lower_bounds=[0.5, 1.], start_ramp_upper_bounds=[1., 2.], shutdown_ramp_lower_bounds=[0.5], shutdown_ramp_upper_bounds=[1.])]
         self.wrapper = eao.portfolio.StructuredAsset(name='sa', nodes=[n1], portfolio=eao.portfolio.Portfolio([self.assets['a3']]),
                                                      start=S0 + 2 * H, end=S0 + 6 * H)
         self.portfolio = eao.portfolio.Portfolio([self.assets['a0'], self.assets['a1'], self.assets['a2']] + self.extra + [self.wrapper])
